@@ -1,8 +1,12 @@
 #!/usr/bin/env python3
-"""tools/seedmatrix.py [PROP ...] : run the quick check of each seeded change's property with the change applied to
-/repo (then undone) and record the outcome in seeded/<id>/meta.json. Development aid, not a registered command."""
+"""tools/seedmatrix.py [PROP ...] : run the quick check of each seeded change's property with the change applied (then
+undone) and record the outcome in seeded/<id>/meta.json. Development aid, not a registered command. With SEED_REPO=<dir> the
+patches are applied to that scratch clone of /repo (the checks are pointed at it through GAMBATOOLS_REPO), so that /repo
+itself stays untouched while other runs use it."""
 import json, os, subprocess, sys, time
 V = '/verif'
+REPO = os.environ.get('SEED_REPO', '/repo')
+ENV = dict(os.environ, GAMBATOOLS_REPO=REPO)
 want = sys.argv[1:]
 rows = []
 for d in sorted(os.listdir(V + '/seeded')):
@@ -16,18 +20,18 @@ for d in sorted(os.listdir(V + '/seeded')):
         continue
     if not os.path.exists(os.path.join(V, 'harness', prop + '.py')):
         continue
-    assert subprocess.run(['git', '-C', '/repo', 'status', '--short', '--', 'src'], capture_output=True, text=True).stdout.strip() == ''
-    if subprocess.run(['git', '-C', '/repo', 'apply', os.path.join(p, 'patch.diff')]).returncode != 0:
+    assert subprocess.run(['git', '-C', REPO, 'status', '--short', '--', 'src'], capture_output=True, text=True).stdout.strip() == ''
+    if subprocess.run(['git', '-C', REPO, 'apply', os.path.join(p, 'patch.diff')]).returncode != 0:
         rows.append((d, 'patch does not apply', 0)); continue
     t = time.time()
     try:
-        r = subprocess.run(['./check', prop, '--no-evidence'], cwd=V, capture_output=True, text=True, timeout=3000)
+        r = subprocess.run(['./check', prop, '--no-evidence'], cwd=V, capture_output=True, text=True, timeout=3000, env=ENV)
         rc = r.returncode
         tail = r.stdout.strip().split('\n')[-1]
     except subprocess.TimeoutExpired:
         rc, tail = 'timeout', ''
     finally:
-        subprocess.run(['git', '-C', '/repo', 'checkout', '--', '.'])
+        subprocess.run(['git', '-C', REPO, 'checkout', '--', '.'])
     meta['detected_by'] = {'check': './check %s --tier quick' % prop, 'exit': rc, 'summary': tail, 'wall_s': round(time.time() - t, 1)}
     json.dump(meta, open(mp, 'w'), indent=1)
     rows.append((d, rc, round(time.time() - t, 1)))
